@@ -198,32 +198,53 @@ void SampledDimension::samplingInterval(double interval) {
 
 boost::optional<ndsize_t> getSampledIndex(const double position, const double offset, const double sampling_interval, const PositionMatch match) {
     boost::optional<ndsize_t> index;
-    if (position < offset && (match != PositionMatch::Greater && match != PositionMatch::GreaterOrEqual)) {
+    const bool greater = match == PositionMatch::Greater || match == PositionMatch::GreaterOrEqual;
+    if (position < offset) {
+        if (greater) {
+            index = 0;
+        }
         return index;
     }
-    double tmp;
-    if (match == PositionMatch::Greater || match == PositionMatch::GreaterOrEqual) {
-        tmp = ceil((position - offset) / sampling_interval);
-        if (tmp < 0.0) {
-            tmp = 0.0;
+    if (!(sampling_interval > 0.0) || !std::isfinite(position) || !std::isfinite(offset)) {
+        return index;
+    }
+    // the coordinate of sample i, exactly as SampledDimension::positionAt computes it
+    auto position_at = [&](double i) { return i * sampling_interval + offset; };
+    // largest i with position_at(i) <= position: estimate it from the quotient, then correct the
+    // estimate for rounding errors so that the result is consistent with positionAt()
+    double idx = floor((position - offset) / sampling_interval);
+    if (idx < 0.0) {
+        idx = 0.0;
+    }
+    while (idx > 0.0 && position_at(idx) > position) {
+        idx -= 1.0;
+    }
+    while (position_at(idx + 1.0) <= position && position_at(idx + 1.0) > position_at(idx)) {
+        idx += 1.0;
+    }
+    const bool equals = position_at(idx) == position;
+    switch (match) {
+    case PositionMatch::LessOrEqual:
+        index = static_cast<ndsize_t>(idx);
+        break;
+    case PositionMatch::Less:
+        if (!equals) {
+            index = static_cast<ndsize_t>(idx);
+        } else if (idx >= 1.0) {
+            index = static_cast<ndsize_t>(idx - 1.0);
         }
-        bool equals = fabs(tmp * sampling_interval + offset - position) <= numeric_limits<double>::epsilon();
-        index = (match == PositionMatch::Greater && equals) ? static_cast<ndsize_t>(tmp + 1) : static_cast<ndsize_t>(tmp);
-    } else if (match == PositionMatch::Less || match == PositionMatch::LessOrEqual) {
-        tmp = floor((position - offset) / sampling_interval);
-        bool equals = fabs(tmp * sampling_interval + offset - position) <= numeric_limits<double>::epsilon();
-        if (match == PositionMatch::Less && equals) { 
-            if (tmp >= 1) {
-                index = static_cast<ndsize_t>(tmp - 1);
-            } 
-        } else {
-            index = static_cast<ndsize_t>(tmp);
+        break;
+    case PositionMatch::Equal:
+        if (equals) {
+            index = static_cast<ndsize_t>(idx);
         }
-    } else {
-        tmp = round((position - offset) / sampling_interval);
-        if (fabs(tmp * sampling_interval + offset - position) <= numeric_limits<double>::epsilon()) {
-            index = static_cast<ndsize_t>(tmp);
-        }
+        break;
+    case PositionMatch::GreaterOrEqual:
+        index = equals ? static_cast<ndsize_t>(idx) : static_cast<ndsize_t>(idx + 1.0);
+        break;
+    case PositionMatch::Greater:
+        index = static_cast<ndsize_t>(idx + 1.0);
+        break;
     }
     return index;
 }
